@@ -11,8 +11,14 @@ Proof. unfold children_bytes. rewrite map_app, concat_app. reflexivity. Qed.
 (* `bytes` and `list N` are convertible but distinct atoms for lia's `@length _` *)
 Ltac nlia := unfold bytes in *; lia.
 Section TrickleProofs.
+  Variable leaf : bytes -> meta.
+  Hypothesis leaf_ok : forall c, blen c < bound63 -> meta_ok (leaf c) /\ content (m_link (leaf c)) = c.
   Variable W : nat.
   Hypothesis HW : (1 <= W)%nat.
+  Notation subs := (subs_g leaf).
+  Notation tnode := (tnode_g leaf).
+  Notation trickle_layout := (trickle_layout_g leaf).
+  Notation rleaf := (tleaf leaf).
 
   (* a producer of one fresh subtree: on data it returns a finished subtree denoting a non-empty-list prefix of the chunks *)
   Definition prod_ok (rrec : list bytes -> meta * list bytes) : Prop :=
@@ -22,9 +28,10 @@ Section TrickleProofs.
 
   Lemma rleaf_ok : prod_ok rleaf.
   Proof.
-    intros [|c r] Hne Hb; [congruence|]. cbn [rleaf fst snd mk_leaf m_link content concat].
-    split; [|split; [reflexivity|cbn [length]; apply Nat.lt_succ_diag_r]].
-    apply mk_leaf_ok. cbn [concat] in Hb. rewrite blen_app in Hb. nlia.
+    intros [|c r] Hne Hb; [congruence|]. cbn [tleaf fst snd concat].
+    assert (Hc : blen c < bound63) by (cbn [concat] in Hb; rewrite blen_app in Hb; nlia).
+    destruct (leaf_ok c Hc) as [Hm Hct].
+    split; [exact Hm|]. split; [rewrite Hct; reflexivity|cbn [length]; apply Nat.lt_succ_diag_r].
   Qed.
 
   Lemma rfill_ok rrec : prod_ok rrec -> forall n acc src,
@@ -90,7 +97,7 @@ Section TrickleProofs.
       + exists (more ++ more2). rewrite R4, S4, <- app_assoc. reflexivity.
   Qed.
 
-  Theorem trickle_well_sized (chunks : list bytes) : chunks <> [] -> blen (concat chunks) < bound63 ->
+  Theorem trickle_well_sized_g (chunks : list bytes) : chunks <> [] -> blen (concat chunks) < bound63 ->
     let root := fst (trickle_layout W chunks) in
     well_sized root = true /\ content root = concat chunks /\ snd (trickle_layout W chunks) = cum_size root /\ tsizes_ok root = true.
   Proof.
@@ -110,6 +117,11 @@ Section TrickleProofs.
     cbn [fst snd]. split; [exact Hws|]. split; [rewrite Hct, S2, L2; reflexivity|]. split; [exact Hst|exact Hts].
   Qed.
 End TrickleProofs.
+
+Lemma mk_leaf_ok' c : blen c < bound63 -> meta_ok (mk_leaf c) /\ content (m_link (mk_leaf c)) = c.
+Proof. intros H. split; [apply mk_leaf_ok; exact H|reflexivity]. Qed.
+
+Definition trickle_well_sized W (HW : (1 <= W)%nat) := trickle_well_sized_g mk_leaf mk_leaf_ok' W HW.
 
 (* ... and therefore this library reads every reference trickle DAG back exactly *)
 Theorem trickle_reads_back W (chunks : list bytes) : (1 <= W)%nat -> chunks <> [] -> blen (concat chunks) < bound63 ->
@@ -148,16 +160,22 @@ Proof.
 Qed.
 
 Section TricklePos.
+  Variable leaf : bytes -> meta.
+  Hypothesis leaf_pos : forall c, nonempty c -> mpos (leaf c).
   Variable W : nat.
   Hypothesis HW : (1 <= W)%nat.
+  Notation subs := (subs_g leaf).
+  Notation tnode := (tnode_g leaf).
+  Notation trickle_layout := (trickle_layout_g leaf).
+  Notation rleaf := (tleaf leaf).
 
   Definition prod_pos (rrec : list bytes -> meta * list bytes) : Prop :=
     forall src, src <> [] -> Forall nonempty src -> mpos (fst (rrec src)) /\ Forall nonempty (snd (rrec src)).
 
   Lemma rleaf_pos : prod_pos rleaf.
   Proof.
-    intros [|c r] Hne Hs; [congruence|]. inversion Hs; subst. cbn [rleaf fst snd].
-    split; [apply mk_leaf_pos; assumption|assumption].
+    intros [|c r] Hne Hs; [congruence|]. inversion Hs; subst. cbn [tleaf fst snd].
+    split; [apply leaf_pos; assumption|assumption].
   Qed.
 
   Lemma rfill_pos rrec : prod_pos rrec -> forall n acc src, Forall mpos acc -> Forall nonempty src ->
@@ -198,7 +216,7 @@ Section TricklePos.
     apply (rfill_pos (tnode W d) (tnode_pos d IH) depthRepeat acc1 src1 S1 S2).
   Qed.
 
-  Theorem trickle_pos_sized (chunks : list bytes) : chunks <> [] -> Forall nonempty chunks ->
+  Theorem trickle_pos_sized_g (chunks : list bytes) : chunks <> [] -> Forall nonempty chunks ->
     pos_sized (fst (trickle_layout W chunks)) = true.
   Proof.
     intros Hne Hs. unfold trickle_layout.
@@ -210,6 +228,8 @@ Section TricklePos.
     apply (mk_node_pos kids); [subst kids; destruct layer; [congruence|discriminate]|exact S1].
   Qed.
 End TricklePos.
+
+Definition trickle_pos_sized W (HW : (1 <= W)%nat) := trickle_pos_sized_g mk_leaf mk_leaf_pos W HW.
 
 (* a reference trickle DAG over non-empty chunks meets both hypotheses of the request theorems *)
 Theorem trickle_qualifies W (chunks : list bytes) : (1 <= W)%nat -> chunks <> [] -> Forall nonempty chunks ->
@@ -247,3 +267,181 @@ Theorem trickle_read_order : forall (W : nat) (chunks : list bytes), (1 <= W)%na
 Proof.
   intros W chunks HW Hne Hs Hb b. destruct (trickle_qualifies W chunks HW Hne Hs Hb) as [H1 H2]. exact (read_order b H1 H2).
 Qed.
+
+(* any Seek/Read history over a reference trickle DAG, from any consistent reader state; and reads under ANY set of unavailable blocks *)
+From UV Require Import File.ReaderProofs3.
+Theorem trickle_reader_refines : forall (W : nat) (chunks : list bytes), (1 <= W)%nat -> chunks <> [] -> (blen (concat chunks) < bound63)%N ->
+  let root := fst (trickle_layout W chunks) in
+  forall ops st, rinv (concat chunks) st ->
+    map forget_loads (reader_run nofault root st ops) = abs_run (concat chunks) (r_off st) ops.
+Proof.
+  intros W chunks HW Hne Hb root. destruct (trickle_well_sized W HW chunks Hne Hb) as (Hws & Hc & _ & _). fold root in Hws, Hc.
+  rewrite <- Hc. exact (reader_refines root Hws).
+Qed.
+
+Theorem trickle_read_fault : forall (W : nat) (chunks : list bytes), (1 <= W)%nat -> chunks <> [] -> (blen (concat chunks) < bound63)%N ->
+  let b := fst (trickle_layout W chunks) in
+  forall fault,
+  let s0 := stream nofault b 0 in
+  let '(pre, o) := before_fault fault s0 in
+  sview (stream fault b 0) = (pre, match o with Some (_, e) => StErr e | None => StEOF end)
+  /\ (exists rest, concat chunks = pre ++ rest /\ (o = None -> rest = []))
+  /\ (forall blk e, o = Some (blk, e) -> fault blk = Some e).
+Proof.
+  intros W chunks HW Hne Hb b fault. destruct (trickle_well_sized W HW chunks Hne Hb) as (Hws & Hc & _ & _). fold b in Hws, Hc.
+  rewrite <- Hc. exact (read_fault fault b Hws).
+Qed.
+
+(* ================= protobuf leaves, and the balanced layout over either kind of leaf ================= *)
+From UV Require Import Codec.Proofs Codec.RoundTrip Codec.Presentation.
+Local Open Scope N_scope.
+
+Lemma pb_leaf_decodes ty c : ty = Data_File \/ ty = Data_Raw -> blen c < bound63 ->
+  decode_data (encode_data (mk_ud ty (Some c) (Some (blen c)) [] None None None None))
+  = Ok (mk_ud ty (Some c) (Some (blen c)) [] None None None None).
+Proof.
+  intros Hty Hc. rewrite decode_encode; [reflexivity|].
+  unfold wf_udata. cbn [d_type d_data d_filesize d_blocksizes d_hashtype d_fanout d_mode d_mtime].
+  rewrite pow64. unfold bound63, blen in *. repeat split; auto; try lia.
+  destruct Hty as [-> | ->]; cbv [Data_File Data_Raw]; lia.
+Qed.
+
+Lemma pb_leaf_t_ok ty c : ty = Data_File \/ ty = Data_Raw -> blen c < bound63 ->
+  meta_ok (mk_pbleaf_t ty c) /\ content (m_link (mk_pbleaf_t ty c)) = c.
+Proof.
+  intros Hty Hc. pose proof (pb_leaf_decodes ty c Hty Hc) as Hd.
+  assert (Hw : wrapped_bytes (Some (encode_data (mk_ud ty (Some c) (Some (blen c)) [] None None None None))) = Ok c).
+  { unfold wrapped_bytes. rewrite Hd. reflexivity. }
+  unfold meta_ok, mk_pbleaf_t, m_link, m_bytes, m_stored. cbn [fst snd].
+  assert (Hct : content (Pb (Some (encode_data (mk_ud ty (Some c) (Some (blen c)) [] None None None None))) []) = c).
+  { cbn [content]. rewrite Hw. reflexivity. }
+  split; [|exact Hct].
+  split; [cbn [well_sized]; rewrite Hw; reflexivity|].
+  split; [rewrite Hct; reflexivity|]. split; [exact Hc|]. split; [exact I|].
+  split; [cbn [cum_size enc_len fold_right]; lia|reflexivity].
+Qed.
+Lemma pb_leaf_ok c : blen c < bound63 -> meta_ok (mk_pbleaf c) /\ content (m_link (mk_pbleaf c)) = c.
+Proof. apply pb_leaf_t_ok. left. reflexivity. Qed.
+Lemma pb_leaf_raw_ok c : blen c < bound63 -> meta_ok (mk_pbleaf_raw c) /\ content (m_link (mk_pbleaf_raw c)) = c.
+Proof. apply pb_leaf_t_ok. right. reflexivity. Qed.
+
+Section Balanced.
+  Variable leaf : bytes -> meta.
+  Hypothesis leaf_ok : forall c, blen c < bound63 -> meta_ok (leaf c) /\ content (m_link (leaf c)) = c.
+  Variable W : nat.
+  Hypothesis HW : (2 <= W)%nat.
+  Notation rleaf := (tleaf leaf).
+  (* (the lemmas of the first section were generalised over its width hypothesis by `nlia`) *)
+  Lemma HW1 : (1 <= W)%nat. Proof. nlia. Qed.
+  Definition rfill_ok' := rfill_ok leaf leaf_ok W HW1.
+  Definition rleaf_ok' := rleaf_ok leaf leaf_ok W HW1.
+
+  Definition GR (d : nat) : list bytes -> meta * list bytes :=
+    match d with O => rleaf | S _ => gfill_node_rec leaf W d [] end.
+
+  Lemma gfill_S d seeded src :
+    gfill_node_rec leaf W (S d) seeded src =
+    let '(children, src') := rfill (GR d) (W - length seeded) seeded src in (mk_node children, src').
+  Proof. destruct d; reflexivity. Qed.
+
+  Lemma GR_ok d : prod_ok (GR d).
+  Proof.
+    induction d as [|d IH]; [exact rleaf_ok'|].
+    intros src Hne Hb. change (GR (S d) src) with (gfill_node_rec leaf W (S d) [] src). rewrite gfill_S. cbn [length].
+    destruct (rfill_ok' (GR d) IH (W - 0) [] src (Forall_nil _) Hb) as (R1 & R2 & R3 & _ & R5).
+    destruct (R5 Hne ltac:(nlia)) as [Rne Rlt].
+    destruct (rfill (GR d) (W - 0) [] src) as [kids s2]. cbn [fst snd] in *.
+    assert (Hsum : sumN (map m_bytes kids) < bound63).
+    { rewrite (children_bytes_len kids R1). assert (E : blen (children_bytes kids ++ concat s2) < bound63) by (rewrite R2; exact Hb).
+      rewrite blen_app in E. nlia. }
+    destruct (mk_node_ok kids Rne R1 Hsum) as [Hmk Hct].
+    split; [exact Hmk|]. split; [rewrite Hct, R2; reflexivity|exact Rlt].
+  Qed.
+
+  (* one round of the root-growing loop: the old root becomes the first child *)
+  Lemma grow_ok depth root src : meta_ok root -> src <> [] -> blen (content (m_link root) ++ concat src) < bound63 ->
+    meta_ok (fst (gfill_node_rec leaf W (S depth) [root] src))
+    /\ content (m_link (fst (gfill_node_rec leaf W (S depth) [root] src))) ++ concat (snd (gfill_node_rec leaf W (S depth) [root] src))
+       = content (m_link root) ++ concat src
+    /\ (length (snd (gfill_node_rec leaf W (S depth) [root] src)) < length src)%nat.
+  Proof.
+    intros Hr Hne Hb. rewrite gfill_S. cbn [length].
+    assert (Hb' : blen (children_bytes [root] ++ concat src) < bound63) by (unfold children_bytes; cbn [map concat]; rewrite app_nil_r; exact Hb).
+    destruct (rfill_ok' (GR depth) (GR_ok depth) (W - 1) [root] src (Forall_cons _ Hr (Forall_nil _)) Hb') as (R1 & R2 & R3 & (more & R4) & R5).
+    destruct (R5 Hne ltac:(nlia)) as [Rne Rlt].
+    destruct (rfill (GR depth) (W - 1) [root] src) as [kids s2]. cbn [fst snd] in *.
+    assert (Hsum : sumN (map m_bytes kids) < bound63).
+    { rewrite (children_bytes_len kids R1). assert (E : blen (children_bytes kids ++ concat s2) < bound63) by (rewrite R2; exact Hb').
+      rewrite blen_app in E. nlia. }
+    destruct (mk_node_ok kids Rne R1 Hsum) as [Hmk Hct].
+    split; [exact Hmk|]. split; [|exact Rlt].
+    rewrite Hct, R2. unfold children_bytes. cbn [map concat]. rewrite app_nil_r. reflexivity.
+  Qed.
+
+  Lemma gloop_ok fuel : forall depth root src, (length src < fuel)%nat -> (1 <= depth)%nat ->
+    meta_ok root -> blen (content (m_link root) ++ concat src) < bound63 ->
+    meta_ok (glayout_loop leaf W fuel depth root src)
+    /\ content (m_link (glayout_loop leaf W fuel depth root src)) = content (m_link root) ++ concat src.
+  Proof.
+    induction fuel as [|f IH]; intros depth root src Hf Hd Hr Hb; [nlia|].
+    destruct src as [|c r]; [cbn [glayout_loop concat]; rewrite app_nil_r; split; [exact Hr|reflexivity]|].
+    cbn [glayout_loop]. destruct depth as [|depth]; [nlia|].
+    destruct (grow_ok depth root (c :: r) Hr ltac:(congruence) Hb) as (G1 & G2 & G3).
+    destruct (gfill_node_rec leaf W (S depth) [root] (c :: r)) as [r' src']. cbn [fst snd] in *.
+    destruct (IH (S (S depth)) r' src' ltac:(cbn [length] in *; nlia) ltac:(nlia) G1 ltac:(rewrite G2; exact Hb)) as [I1 I2].
+    split; [exact I1|]. rewrite I2, G2. reflexivity.
+  Qed.
+
+  Theorem balanced_well_sized_g (chunks : list bytes) : chunks <> [] -> blen (concat chunks) < bound63 ->
+    let root := fst (balanced_layout_g leaf W chunks) in
+    well_sized root = true /\ content root = concat chunks /\ snd (balanced_layout_g leaf W chunks) = cum_size root /\ tsizes_ok root = true.
+  Proof.
+    intros Hne Hb root. subst root. destruct chunks as [|c r]; [congruence|]. cbn [balanced_layout_g fst snd].
+    assert (Hc : blen c < bound63) by (cbn [concat] in Hb; rewrite blen_app in Hb; nlia).
+    destruct (leaf_ok c Hc) as [Hm Hct].
+    destruct (gloop_ok (S (length r)) 1 (leaf c) r ltac:(nlia) ltac:(nlia) Hm ltac:(rewrite Hct; exact Hb)) as [(Hws & _ & _ & _ & Hst & Hts) Hcont].
+    split; [exact Hws|]. split; [rewrite Hcont, Hct; reflexivity|]. split; [exact Hst|exact Hts].
+  Qed.
+End Balanced.
+
+(* ---- instances: what the reference importer writes with protobuf leaves, in either layout, is well-sized and reads back ---- *)
+Definition trickle_pb_well_sized W (HW : (1 <= W)%nat) := trickle_well_sized_g mk_pbleaf_raw pb_leaf_raw_ok W HW.
+Definition balanced_pb_well_sized W (HW : (2 <= W)%nat) := balanced_well_sized_g mk_pbleaf pb_leaf_ok W HW.
+Definition balanced_raw_well_sized W (HW : (2 <= W)%nat) := balanced_well_sized_g mk_leaf mk_leaf_ok' W HW.
+
+Theorem reference_pb_layouts_read_back W (chunks : list bytes) : (2 <= W)%nat -> chunks <> [] -> blen (concat chunks) < bound63 ->
+  forall root, root = fst (trickle_layout_g mk_pbleaf_raw W chunks) \/ root = fst (balanced_layout_g mk_pbleaf W chunks) ->
+  well_sized root = true
+  /\ fst (fst (drain_all (stream nofault root 0) [] [])) = concat chunks
+  /\ snd (drain_all (stream nofault root 0) [] []) = StEOF
+  /\ (forall ops, map forget_loads (reader_run nofault root rs0 ops) = abs_run (concat chunks) 0 ops)
+  /\ node_length root = Ok (zlen (concat chunks)).
+Proof.
+  intros HW Hne Hb root Hr.
+  assert (G : well_sized root = true /\ content root = concat chunks).
+  { destruct Hr as [-> | ->].
+    - destruct (trickle_pb_well_sized W ltac:(lia) chunks Hne Hb) as (H1 & H2 & _). auto.
+    - destruct (balanced_pb_well_sized W HW chunks Hne Hb) as (H1 & H2 & _). auto. }
+  destruct G as [Hws Hc]. split; [exact Hws|]. rewrite <- Hc. exact (read_well_sized root Hws).
+Qed.
+
+(* the generic balanced layout over raw leaves is Builder.ref_layout, i.e. (C07) this library's own file DAG *)
+Lemma balanced_raw_is_ref_layout W chunks : balanced_layout_g mk_leaf W chunks = ref_layout W chunks.
+Proof.
+  assert (F : forall d seeded src, gfill_node_rec mk_leaf W d seeded src = fill_node_rec W d seeded src).
+  { induction d as [|d IH]; intros seeded src; [reflexivity|].
+    cbn [gfill_node_rec fill_node_rec]. destruct d as [|d']; [reflexivity|].
+    assert (E : forall n acc s, rfill (gfill_node_rec mk_leaf W (S d') []) n acc s = rfill (fill_node_rec W (S d') []) n acc s).
+    { induction n as [|n IHn]; intros acc s; [reflexivity|]. cbn [rfill]. destruct s as [|c r]; [reflexivity|]. rewrite IH.
+      destruct (fill_node_rec W (S d') [] (c :: r)). apply IHn. }
+    rewrite E. reflexivity. }
+  assert (L : forall fuel d root src, glayout_loop mk_leaf W fuel d root src = layout_loop W fuel d root src).
+  { induction fuel as [|f IH]; intros d root src; destruct src as [|c r]; reflexivity. }
+  destruct chunks as [|c r]; [reflexivity|]. cbn [balanced_layout_g ref_layout]. rewrite L. reflexivity.
+Qed.
+
+Example pb_layouts_demo :
+  let chunks := [[1; 2]; [3]; [4; 5]; [6]; [7]; [8; 9]; [10]; [11]; [12]; [13]; [14]]%N in
+  well_sized (fst (trickle_layout_g mk_pbleaf_raw 2 chunks)) = true /\ content (fst (trickle_layout_g mk_pbleaf_raw 2 chunks)) = concat chunks
+  /\ well_sized (fst (balanced_layout_g mk_pbleaf 3 chunks)) = true /\ content (fst (balanced_layout_g mk_pbleaf 3 chunks)) = concat chunks.
+Proof. repeat split; vm_compute; reflexivity. Qed.
